@@ -6,7 +6,7 @@
 (*   {"a":"Read", ..., "post":p}              generate() on the LIVE         *)
 (*        DrawdownGenerator: post.cur is what the read returned             *)
 (*   {"a":"AddPoint","t":..,"v":..,"post":p}  one point and the projected    *)
-(*        figures after it, in integers: depth in 1e-6 units (rounded),     *)
+(*        figures after it, in integers: depth in 1e-4 units (rounded),     *)
 (*        model time = ms / 1000, mean duration in ms                       *)
 (* The spec's own action AddPoint advances curve / gen / emitted; the line  *)
 (* is accepted when `Conf` holds between curve' and the logged figures,     *)
@@ -19,20 +19,21 @@ Rec == ndJsonDeserialize(IOEnv.TRACE)
 VARIABLES l, bad
 tvars == <<curve, gen, emitted, seen, last, l, bad>>
 
-\* |ppm - r * 1e6| <= 1   (the log is rounded to 1e-6; r < 1 so r[1] * 1e6 stays below 2^31)
-Approx(r, ppm) == AbsI(ppm * r[2] - r[1] * 1000000) <= r[2]
+\* |x - r * 1e4| <= 1   (the log carries depths rounded to 1e-4 units; depths may exceed 1 - a curve
+\* can fall below zero - and r[1] * 1e4 stays below 2^31 over the trace driver's value set)
+Approx(r, x) == AbsI(x * r[2] - r[1] * 10000) <= r[2]
 
 DDOk(o, lg) == /\ o.has = lg.has
                /\ o.has => /\ o.d.start = lg.start /\ o.d.end = lg.end
-                           /\ Approx(o.d.value, lg.ppm)
+                           /\ Approx(o.d.value, lg.e4)
 MaxOk(S, lg) == /\ lg.has = (S # {})
-                /\ lg.has => \E m \in MaxSet(S) : m.start = lg.start /\ m.end = lg.end /\ Approx(m.value, lg.ppm)
+                /\ lg.has => \E m \in MaxSet(S) : m.start = lg.start /\ m.end = lg.end /\ Approx(m.value, lg.e4)
 \* integer-millisecond mean: within +- count ms of the exact mean (1 model time unit = 1000 ms)
 MeanOk(S, lg, withCount) ==
   /\ lg.has = (S # {})
   /\ withCount => lg.count = Cardinality(S)
   /\ lg.has => LET m == MeanOf(S)
-               IN /\ Approx(m.value, lg.ppm)
+               IN /\ Approx(m.value, lg.e4)
                   /\ AbsI(lg.ms * m.dur[2] - 1000 * m.dur[1]) <= m.count * m.dur[2]
 
 Conf(c, p) ==
